@@ -240,6 +240,15 @@ def zero_spellings():
                 yield ("%smisplaced-zero:%s:%s" % (t.tag, d, sp), text)
 
 
+def empty_quoted_spellings():
+    """texts that must be ACCEPTED (LLVM reads the quoted empty name as "unnamed"): in an all-unnamed body, one definition — at EVERY position, not only the first
+    unnamed one — written with the empty quoted name (`%""`, a label `"":`); the entity takes the next number like any other unnamed one. Yields (kind, text)."""
+    for t in (MAIN, EH):
+        for d in t.DEFS:
+            text, _ = render({}, None, {d: '""'}, t=t)
+            yield ("%sempty-quoted:%s" % (t.tag, d), text)
+
+
 def declaration_numberings():
     """parameter lists of DECLARATIONS with explicit IDs: (kind, text, valid). A declaration has no body whose numbering would be checked, so the parser has to
     check the parameter IDs by itself — a misnumbered declaration that is accepted makes the printer fail."""
